@@ -13,11 +13,11 @@ INV = {
             'Inv_C06_InTransition', 'Inv_C06_Archived', 'Inv_C06_ArchivedNotReconciled'],
     'C07': ['Inv_C07_CreateJustified', 'Inv_C07_AtMostOnePerTemplateEpoch', 'Inv_C07_RevisionsUnique', 'Inv_C07_RevisionIncreasing', 'Inv_C07_NoReuse', 'Inv_C07_ProgressOnMismatch', 'Conf_DeployPlan'],
     'C08': ['Inv_C08_ArchiveOnlyPaused', 'Inv_C08_NewestNeverArchived', 'Inv_C08_ArchiveCondition', 'Inv_C08_PruneOldestOnly', 'Inv_C08_SharedObjectNotDeleted', 'Conf_DeployPlan'],
-    'C09': ['Inv_C09_NoWritesWhilePaused', 'Inv_C09_StillReports', 'Inv_C09_DeploymentPausedNoRevisionChange', 'Inv_C09_ReleaseExactlyMarked', 'Inv_C09_Propagation', 'Inv_C09_PackagePaused', 'Inv_C09_PhasePauseFollows', 'Inv_C09_PhasePauseBehindFailure', 'Conf_DeployPlan'],
+    'C09': ['Inv_C09_NoWritesWhilePaused', 'Inv_C09_StillReports', 'Inv_C09_DeploymentPausedNoRevisionChange', 'Inv_C09_ReleaseExactlyMarked', 'Inv_C09_Propagation', 'Inv_C09_PackagePaused', 'Inv_C09_PhasePauseFollows', 'Inv_C09_PhasePauseBehindFailure', 'Conf_DeployPlan', 'Conf_RemotePhase'],
     'C10': ['Inv_C10_Quiescent', 'Inv_C10_SameOutcome', 'Inv_C10_DigestMatchesStore', 'Inv_C19_NoPanic'],
     'C11': ['Inv_C11_PhaseAllOrNothing', 'Inv_C11_Scope', 'Inv_C11_Reported', 'Inv_C11_NoWriteIfViolating', 'Inv_C11_ViolationReported'],
     'C14': ['Inv_C14_SameAsInline', 'Inv_C14_GC', 'Inv_C14_GCInstant', 'Inv_C14_SliceContent', 'Conf_DeployPlan'],
-    'C15': ['Inv_C15_SameAsLocal', 'Inv_C15_PhaseObjectFaithful', 'Inv_C15_PhaseObjectLifetime', 'Inv_C15_PausePropagation', 'Inv_C09_PhasePauseFollows', 'Inv_C09_PhasePauseBehindFailure'],
+    'C15': ['Inv_C15_SameAsLocal', 'Inv_C15_PhaseObjectFaithful', 'Inv_C15_PhaseObjectLifetime', 'Inv_C15_PausePropagation', 'Inv_C09_PhasePauseFollows', 'Inv_C09_PhasePauseBehindFailure', 'Conf_RemotePhase'],
     'C12': ['Inv_C12_InformerIffOwned', 'Inv_C12_HandlersAttached', 'Inv_C12_ReadUnwatchedFails', 'Inv_C12_MatchesReferenceModel'],
     'C20': ['Inv_C20_OnePullPerImage', 'Inv_C20_ExactlyOneResponse', 'Inv_C20_NoPhantomPull', 'Inv_C20_Private', 'Inv_C20_NoLostWakeup'],
     'C13': ['Inv_C13_Deterministic', 'Inv_C13_Conservation', 'Inv_C13_LabelsAndAnnotations', 'Inv_C13_FuncAllowList'],
@@ -295,6 +295,28 @@ def deploy_mc(which):
     return f
 
 
+def phase_mc(tier):
+    """exhaustive TLC runs (safety + liveness under fairness) of the delegated-phase protocol model spec/PKOPhase.tla: the ObjectSet
+    controller's handling of phase objects per API call (decision = RemotePhase.tla), the ObjectSetPhase controller abstract"""
+    q = tier == 'quick'
+    inv = ['TypeOK', 'Inv_C03_Gate', 'Inv_C09_PhaseHandsOff', 'Inv_C09_PauseReachesReached', 'Inv_C04_ReverseOrder', 'Inv_C04_Release', 'Inv_C15_PhaseObjectLifetime']
+    live = ['Live_Rollout', 'Live_Teardown']
+
+    def c(**kw):
+        d = dict(N=3, Deleg='MCDeleg23', PauseAll='FALSE', MaxUser=2 if q else 3, MaxWork=2 if q else 3, MaxTP=1)
+        d.update(kw)
+        return d
+    jobs = [dict(name='phase-asfound', kind='gen', module='MC_PKOPhase', spec='FairSpec', constants=c(), invariants=inv, props=live, timeout=3000),
+            dict(name='phase-asfound-d13', kind='gen', module='MC_PKOPhase', spec='FairSpec', constants=c(Deleg='MCDeleg13'), invariants=inv, props=live, timeout=3000),
+            # the repair design (a paused pass goes on to propagate the pause, creating nothing) satisfies everything incl. PauseReachesAll
+            dict(name='phase-pauseall', kind='gen', module='MC_PKOPhase', spec='FairSpec', constants=c(PauseAll='TRUE'),
+                 invariants=inv + ['Inv_C09_PauseReachesAll'], props=live, timeout=3000),
+            # negative control: the known finding C09 (pause does not reach phases behind a failing phase) at the design level
+            dict(name='phase-asfound-negctl', kind='gen', module='MC_PKOPhase', constants=c(), invariants=['Inv_C09_PauseReachesAll'],
+                 expect_violation='Inv_C09_PauseReachesAll')]
+    return jobs
+
+
 LIVE = ['Live_C10_ObjectsRepaired', 'Live_C10_Quiescent', 'Live_C10_TeardownCompletes']
 
 
@@ -359,7 +381,7 @@ CHECKS = {
     'C08': dict(level='model_checking', invariants=INV['C08'], assumptions=ASSUME, mc=deploy_mc('C08'), jobs=sched_jobs([
         ('deploy-atomic', DEPLOY, 'deploy', 'atomic', 160, 3000, 160),
         ('deploy-api', DEPLOY, 'deploy', 'api', 120, 2000, 250)])),
-    'C09': dict(level='model_checking', invariants=INV['C09'], assumptions=ASSUME, mc=design_mc(MCINV['C09']), jobs=lambda tier, seed: [
+    'C09': dict(level='model_checking', invariants=INV['C09'], assumptions=ASSUME, mc=lambda tier: design_mc(MCINV['C09'])(tier) + phase_mc(tier), jobs=lambda tier, seed: [
         dict(name='package-pause', shards=4 if tier == 'quick' else 14,
              driver=['package-walk', '-mode', 'atomic', '-n', '80' if tier == 'quick' else '2000', '-steps', '70', '-seed', str(seed)])] + sched_jobs([
         ('pause-atomic', ROLLOUT + ',' + HANDOVER + ',collision', 'pause', 'atomic', 120, 2000, 80),
@@ -441,7 +463,7 @@ CHECKS = {
                          driver=['package-walk', '-mode', 'api', '-n', '60' if tier == 'quick' else '2000', '-steps', '160', '-seed', str(seed)]),
                     rnd('sliced-atomic', 'sliced', 'all', 'atomic', 80 if tier == 'quick' else 2000, 90, seed, 4 if tier == 'quick' else 14),
                     rnd('sliced-api', 'sliced', 'all', 'api', 80 if tier == 'quick' else 2000, 160, seed, 4 if tier == 'quick' else 14)]),
-    'C15': dict(level='model_checking', assumptions=ASSUME,
+    'C15': dict(level='model_checking', assumptions=ASSUME, mc=phase_mc,
                 invariants=INV['C15'] + INV['C01'] + INV['C02'] + INV['C03'] + INV['C04'] + INV['C05'] + INV['C06'] + ['Inv_C09_NoWritesWhilePaused'],
                 jobs=lambda tier, seed: [
                     dict(name='differential-c15', shards=5 if tier == 'quick' else 14, driver=['differential', '-profile', 'c15']),
@@ -465,7 +487,7 @@ TECHNIQUES = {
     'C12': 'TLA+ model-based: exhaustive TLC check of the reference model spec/DynCache.tla (intended + as-found variants as negative controls); enumerated and random operation sequences and concurrent stress on the real dynamiccache.Cache validated by TLC against the model (spec/TraceDynCache.tla: state and result equality after every call)',
     'C13': 'TLA+ model-based: rendering specified as a pure function (spec/Render.tla); abstract packages concretised and rendered repeatedly by the real pipeline; TLC (spec/TraceRender.tla) compares every outcome with Expected(p)',
     'C14': 'TLA+ model-based: exhaustive TLC check of spec/PKODeploy.tla (deployer with slices and slice GC; design-level reproduction of the known GC race as negative control); differential sliced-vs-inline runs and package update histories on the real controllers; ' + TV,
-    'C15': 'TLA+ model-based: differential delegated-vs-local runs and seeded schedules of the real ObjectSet / ObjectSetPhase controllers; ' + TV + ' (C01-C06, C09 invariants on delegated scenarios)',
+    'C15': 'TLA+ model-based: exhaustive TLC check (safety + liveness) of the delegated-phase protocol model spec/PKOPhase.tla (decision function spec/RemotePhase.tla); differential delegated-vs-local runs and seeded schedules of the real ObjectSet / ObjectSetPhase controllers; ' + TV + ' (C01-C06, C09 invariants on delegated scenarios)',
     'C16': 'TLA+ model-based: seeded histories of Package edits, faults and conflicts on the real Package controller + deployer; ' + TV + ' (reference render = the same pipeline called directly)',
     'C17': 'TLA+ model-based: probing specified as a function of abstract (probe list, object) rows (spec/Probing.tla); rows concretised and run through the real parser and probes; TLC (spec/TraceProbing.tla) compares verdict and messages',
     'C18': 'TLA+ model-based: seeded histories on the real ObjectTemplate controller with reconciles triggered through the real EnqueueWatchingObjects handler and RequeueAfter timers; ' + TV,
